@@ -109,6 +109,8 @@ fn check<C: Pv>(c: &Case) -> Report {
                 "C10/horner-positional-contract".to_string()
             } else if features.contains("two-creators") {
                 "C10/two-creators".to_string()
+            } else if features.contains("npo-duplicate-output") {
+                "C10/npo-duplicate-output".to_string()
             } else {
                 fail_sig::<C>(&e, &features)
             };
